@@ -11,7 +11,10 @@ COQ_TARGETS = ["theories/Properties/C21.vo"]
 PROPERTY_FILES = ["theories/Properties/C21.v"]
 RULE = ("seeded selector lists over the real registry (codes, names, groups, aliases, globs with * ? [set] [!set] [a-b], unknown references, "
         "comma/whitespace noise, allow and deny mixed) -> get_rulepack vs the Coq model over the translated registry; whole reference map "
-        "compared key by key; fixture SQL linted with one rule alone vs alongside all others. "
+        "compared key by key; fixture SQL linted with one rule alone vs alongside all others; the same alone-vs-together comparison under "
+        "configurations that set ONE rule option (every option name of every rule's config_keywords, value + trigger SQL harvested from the rule's "
+        "yaml cases, else first non-default value of the validation range) in the owning rule's section / in another rule's section / at the "
+        "generic [sqlfluff:rules] level. "
         "non-trivial = selection using a name/group/alias/glob or a deny list; distinct = distinct (allow, deny) strings")
 ASSUMPTIONS = ["fnmatch semantics restricted to * ? [set] [!set] [a-b] (no reversed ranges / escapes)", "str.strip() whitespace restricted to ASCII whitespace, U+0085, U+00A0",
                "rule crawl is a function of (rule, tree) -- monitored by the alone-vs-together runs"]
@@ -126,6 +129,7 @@ def run(ctx, coq_ok):
             if sorted(alone_l) != sorted(by_rule.get(r, [])):
                 ctx.violation("rule-depends-on-others", "violations of rule %s differ when run alone vs with all rules" % r,
                               {"input": {"file": f, "rule": r}, "alone": sorted(alone_l), "together": sorted(by_rule.get(r, []))}, attrs={"rule": r})
+    independence_under_rule_options(ctx, reg)
     if not coq_ok:
         return
     # model
@@ -146,3 +150,171 @@ def run(ctx, coq_ok):
             ctx.broken_obligation("correspondence Model.RuleSelect.lookup vs rule_reference_map", {"key": k, "model": mm, "impl": sorted(refmap[k])})
             break
     ctx.coverage_extra["model_vs_impl_cases"] = len(lits) + len(keys)
+
+
+# ---- independence under rule-specific configuration: an option written into ONE rule's section (or the generic level) must reach exactly the
+# rules the configuration says it reaches, whatever other rules are instantiated in the same pack
+def harvest_option_cases(reg):
+    """From the rule yaml cases: (rule code, option, value, case configs, dialect, sql) for every case that sets a rule option."""
+    import yaml
+    from harness.core import REPO
+    out = []
+    plain = {}
+    for f in sorted(glob.glob(REPO + "/test/fixtures/rules/std_rule_cases/*.yml")):
+        try:
+            d = yaml.safe_load(open(f))
+        except Exception:
+            continue
+        rule = d.get("rule")
+        if rule not in reg:
+            continue
+        for name, c in sorted(d.items()):
+            if not isinstance(c, dict):
+                continue
+            sql = c.get("fail_str") or c.get("pass_str")
+            if not isinstance(sql, str):
+                continue
+            cfg = c.get("configs") or {}
+            dialect = (cfg.get("core") or {}).get("dialect") or "ansi"
+            if (cfg.get("core") or {}).get("templater") not in (None, "raw", "jinja"):
+                continue
+            secs = cfg.get("rules") or {}
+            n = 0
+            for ref, sec in sorted(secs.items()):
+                if isinstance(sec, dict):
+                    for k, v in sorted(sec.items()):
+                        out.append({"rule": rule, "ref": ref, "option": k, "value": v, "configs": cfg, "dialect": dialect, "sql": sql,
+                                    "case": "%s:%s" % (os.path.basename(f), name)})
+                        n += 1
+            if not n and dialect == "ansi" and "fail_str" in c:
+                plain.setdefault(rule, []).append(sql)
+    return out, plain
+
+
+def rule_option_table(reg):
+    """{option name: [(owner code, owner section ref, default value, validation)]} from config_keywords / config info / the default config."""
+    from sqlfluff.core import FluffConfig
+    from sqlfluff.core.plugin.host import get_plugin_manager
+    info = {}
+    for d in get_plugin_manager().hook.get_configs_info():
+        info.update(d)
+    cfg = FluffConfig(overrides={"dialect": "ansi"})
+    generic = cfg.get_section("rules")
+    table = {}
+    for code in sorted(reg):
+        rc = reg[code].rule_class
+        sec = cfg.get_section(("rules", rc.get_config_ref())) or {}
+        for k in getattr(rc, "config_keywords", None) or []:
+            table.setdefault(k, []).append((code, rc.get_config_ref(), sec.get(k, generic.get(k)), (info.get(k) or {}).get("validation")))
+    return table
+
+
+def independence_under_rule_options(ctx, reg):
+    import copy
+    from sqlfluff.core import FluffConfig, Linter
+    rng = ctx.rng
+    quick = ctx.tier == "quick"
+    harvested, plain = harvest_option_cases(reg)
+    table = rule_option_table(reg)
+    refs = {code: reg[code].rule_class.get_config_ref() for code in reg}
+    by_opt = {}
+    for h in harvested:
+        by_opt.setdefault(h["option"], []).append(h)
+    ctx.coverage_extra["rule_options"] = len(table)
+    ctx.coverage_extra["rule_options_with_yaml_cases"] = len([k for k in table if k in by_opt])
+
+    def by_rule(vs):
+        out = {}
+        for v in vs:
+            if hasattr(v, "rule"):
+                out.setdefault(v.rule_code(), []).append((v.line_no, v.line_pos, v.desc()))
+        return {k: sorted(v) for k, v in out.items()}
+
+    def lint(configs, rules, sql, parsed=None):
+        """Linter.lint_string under `configs` (+ rule selection). Quick tier only: the runs of one scenario differ in rule selection / rule
+        options alone, which parsing cannot see, so the single-rule runs reuse the parse of the all-rules run and go through the same three
+        public steps lint_string is made of (parse_string, get_rulepack, lint_parsed); the thorough tier always calls lint_string."""
+        ov = {"rules": rules} if rules else {}
+        cfg = FluffConfig(configs=copy.deepcopy(configs), overrides=ov)
+        lnt = Linter(config=cfg)
+        if parsed is not None:
+            try:
+                pack = lnt.get_rulepack(config=cfg)
+                return by_rule(lnt.lint_parsed(parsed._replace(config=cfg), pack, fix=False).violations), parsed
+            except (AttributeError, TypeError):
+                ctx.count("independence-shared-parse-unavailable")
+        if quick and parsed is None and rules is None:
+            try:
+                parsed = lnt.parse_string(sql)
+            except (AttributeError, TypeError):
+                parsed = None
+        return by_rule(lnt.lint_string(sql).violations), parsed
+
+    for k in sorted(table):
+        owners = table[k]
+        items = []
+        cand = by_opt.get(k, [])
+        # prefer cases in the default dialect (loading a dialect costs a second) whose value is not the default of that rule
+        defaults = {code: dflt for (code, ref, dflt, val) in owners}
+        good = [h for h in cand if h["value"] != defaults.get(h["rule"], None)] or cand
+        ansi = [h for h in good if h["dialect"] == "ansi"] or good
+        # parsing dominates the cost: in the quick tier draw from the shorter half of the trigger statements
+        ansi.sort(key=lambda h: (len(h["sql"]), h["case"]))
+        if quick:
+            ansi = ansi[: max(3, len(ansi) // 2)]
+        rng.shuffle(ansi)
+        items = ansi[: (1 if quick else 3)]
+        if not items:
+            # no yaml case sets this option: first non-default value of the validation range, on the owner's failing cases
+            for (code, ref, dflt, val) in owners:
+                vals = [x for x in (list(val)[:6] if val is not None else []) if x != dflt]
+                sqls = plain.get(code, [])
+                if vals and sqls:
+                    items.append({"rule": code, "ref": ref, "option": k, "value": vals[0], "configs": {}, "dialect": "ansi", "sql": rng.choice(sqls),
+                                  "case": "validation-range"})
+        for h in items:
+            others = [c for c in sorted(reg) if c != h["rule"]]
+            places = [("own", h["rule"])] + [("sibling", rng.choice(others)) for _ in range(2 if quick else 3)] + [("generic", None)]
+            for where, acode in places:
+                configs = copy.deepcopy(h["configs"]) if isinstance(h["configs"], dict) else {}
+                configs.setdefault("core", {})
+                configs["core"]["dialect"] = h["dialect"]
+                rules_sec = configs.setdefault("rules", {})
+                if isinstance(rules_sec.get(h["ref"]), dict):
+                    rules_sec[h["ref"]].pop(k, None)
+                if where == "generic":
+                    rules_sec[k] = h["value"]
+                else:
+                    sec = rules_sec.setdefault(refs[acode], {})
+                    if not isinstance(sec, dict):
+                        continue
+                    sec[k] = h["value"]
+                inp = {"configs": configs, "sql": h["sql"], "option": k, "value": h["value"], "set_in": where,
+                       "section_rule": acode, "from_case": h["case"]}
+                try:
+                    together, parsed = lint(configs, None, h["sql"])
+                except Exception as e:
+                    ctx.count("independence-config-rejected:%s" % type(e).__name__)
+                    continue
+                alone_rules = sorted({c for (c, r, d, v) in owners} | {h["rule"]} | ({acode} if acode else set()) | (set() if quick else {rng.choice(others)}))
+                for b in alone_rules:
+                    try:
+                        alone, _ = lint(configs, b, h["sql"], parsed)
+                    except Exception as e:
+                        ctx.violation("rule-alone-raises", "a configuration accepted for the whole rule set raises when one rule is selected",
+                                      {"input": dict(inp, rule=b), "error": repr(e)}, attrs={"rule": b, "exception": type(e).__name__})
+                        continue
+                    ctx.case(("indep-opt", k, where, acode, b, h["case"]) if (alone.get(b) or together.get(b)) else None,
+                             bucket="independence-option-" + where,
+                             sample=dict(inp, rule=b, alone=alone.get(b, [])) if where == "sibling" and alone.get(b) and rng.random() < 0.05 else None)
+                    extra = sorted(set(alone) - {b})
+                    if extra:
+                        ctx.violation("unselected-rule-reported", "a rule outside the selection reported a violation",
+                                      {"input": dict(inp, rules=b), "others": extra})
+                    if alone.get(b, []) != together.get(b, []):
+                        ctx.violation("rule-depends-on-others-config",
+                                      "with option %s set %s, violations of rule %s differ when run alone vs with all rules" % (
+                                          k, {"own": "in its rule's own section", "sibling": "in another rule's section",
+                                              "generic": "at the generic rules level"}[where], b),
+                                      {"input": dict(inp, rule=b), "alone": alone.get(b, []), "together": together.get(b, [])},
+                                      attrs={"rule": b, "option": k, "set_in": where})
